@@ -6,15 +6,12 @@ from pathlib import Path
 VERIF = Path(__file__).resolve().parent.parent
 ALL = [f"C{i:02d}" for i in range(1, 21)]
 
-# pid -> (technique, level text, level note, design ref)
-CHECKS = {
-    "C16": (
-        "Coq proof over a Gallina model of PluginRef/version tables + exhaustive differential correspondence with the code",
-        "Order axioms, supports, ascending+complete version lists and newest-compatible resolution are theorems (all refs, all registration orders, any number of versions) about coq/Util/PluginRef.v; the model is tied to the code by exhaustive operator tables over 108 references and every registration order of small version sets through _add_ep and register_in_group.",
-        "Trusted: Coq kernel, extraction (ExtrOcamlBasic/ExtrOcamlString) cross-checked by vm_compute, the harness; modelled not verified: CPython str/tuple comparison on ASCII, functools.total_ordering, dict order, list.sort, pydantic parsing. All theorems closed under the global context.",
-        "DESIGN.md §5 C16",
-    ),
-}
+# pid -> {technique, level_text, level_note, design_ref}: tools/checks.json
+CHECKS = {k: (v["technique"], v["level_text"], v["level_note"], v["design_ref"])
+          for k, v in json.loads((VERIF / "tools" / "checks.json").read_text()).items()}
+# pid -> reason, for properties that are not claimed: tools/not_claimed.json (optional)
+_NC = VERIF / "tools" / "not_claimed.json"
+NOT_CLAIMED = json.loads(_NC.read_text()) if _NC.exists() else {}
 
 NOT_YET = "check not built yet (work in progress); no claim is made for this property at this commit"
 
@@ -51,7 +48,7 @@ def main():
         }],
         "checks": checks,
         "notes": "See DESIGN.md. fix: commits in /repo are listed in known_findings.json as fixed entries.",
-        "not_applicable": [{"property_id": p, "reason": NOT_YET} for p in ALL if p not in CHECKS],
+        "not_applicable": [{"property_id": p, "reason": NOT_CLAIMED.get(p, NOT_YET)} for p in ALL if p not in CHECKS],
     }
     (VERIF / "MANIFEST.json").write_text(json.dumps(man, indent=1) + "\n")
     print("wrote MANIFEST.json with", len(checks), "checks")
